@@ -697,8 +697,9 @@ static int mapping0_forward(vorbis_block *vb){
 
 #ifdef XIPH_VORBIS_VERIF
 /* verification probe (off unless a harness installs it): the spectral
-   vector of every channel after residue decode (stage 0) and after
-   inverse channel coupling (stage 1) */
+   vector of every channel after residue decode (stage 0), after
+   inverse channel coupling (stage 1) and after the floor curve has
+   been applied (stage 2) */
 void (*vorbis_verif_spectrum)(int stage,int ch,const float *v,long n)=0;
 #endif
 
@@ -803,6 +804,11 @@ static int mapping0_inverse(vorbis_block *vb,vorbis_info_mapping *l){
       inverse2(vb,b->flr[info->floorsubmap[submap]],
                floormemo[i],pcm);
   }
+
+#ifdef XIPH_VORBIS_VERIF
+  if(vorbis_verif_spectrum)
+    for(i=0;i<vi->channels;i++)vorbis_verif_spectrum(2,i,vb->pcm[i],n/2);
+#endif
 
   /* transform the PCM data; takes PCM vector, vb; modifies PCM vector */
   /* only MDCT right now.... */
